@@ -21,6 +21,7 @@ ITEMS = [
     Item('FileDumper.hash_handler', DM.sym_hash_handler, [], DM.D + 'file_dumper.py::FileDumper.hash_handler'),
     Item('FileDumper.handle_datapackage', DM.sym_handle_datapackage, [], DM.D + 'file_dumper.py::FileDumper.handle_datapackage'),
     Item('PathDumper.write_file_to_output', DM.sym_write_file_to_output, [], DM.D + 'to_path.py::PathDumper.write_file_to_output'),
+    Item('PathDumper.write_file_to_output.faulty', DM.sym_write_file_to_output_faulty, [], DM.D + 'to_path.py::PathDumper.write_file_to_output'),
     Item('ZipDumper', DM.sym_zip_dumper, [], DM.D + 'to_zip.py::ZipDumper.write_file_to_output'),
     Item('dumps', None, [('statistics', N.nat_dump_stats)], None),
 ]
